@@ -330,6 +330,7 @@ def shards(tier):
         from vf.gen import conforming  # noqa
         out += [{"kind": "docs", "n": 250 if quick else 8000} for _ in range(4)]
         out += [{"kind": "serdocs", "n": 250 if quick else 8000} for _ in range(2)]
+        out += [{"kind": "family", "part": i, "of": 2} for i in range(2)]
     except ImportError:
         pass
     return out
@@ -371,6 +372,18 @@ def run_shard(desc, seed, tier):
             case = {"kind": "serdoc", "doc": doc, "opts": SER_OPTS[k], "walker": walker}
             acc.add(case, check_case(case))
         drive(st.tuples(conforming._doc_strategy(30), st.integers(0, len(SER_OPTS) - 1), st.sampled_from(["etree", "dom"])), fn, desc["n"], seed)
+    elif kind == "family":
+        # hand-written conforming documents, at least one per optional-tag rule of the standard and per document-level rule
+        # (empty head / body, comments and white space around them), every tag written out; both walkers; every permitted DOCTYPE
+        from vf.gen import conforming
+        for k, markup in enumerate(conforming.family_documents()):
+            if k % desc["of"] != desc["part"]:
+                continue
+            for walker in ("etree", "dom"):
+                case = {"kind": "doc", "markup": markup, "walker": walker}
+                if k % 3 == 0:
+                    case["doctype_variant"] = 1
+                acc.add(case, check_case(case), sample={"kind": "family", "markup": short(markup, 200)})
     else:
         from vf.gen import conforming
         conforming.run_optional_tags_docs(acc, desc["n"], seed)
@@ -382,7 +395,7 @@ def finish(cov, total, tier):
 
 
 def shrink_extra(case, fails):
-    if case.get("kind") not in ("doc", "serdoc"):
+    if case.get("kind") not in ("doc", "serdoc") or "doc" not in case:
         return case
     from vf.gen import conforming
 
